@@ -30,6 +30,13 @@ profile('core-ids', P.gen_ids, cancels=0.15)
 
 profile('parser', XP.gen_parser)
 
+profile('cut', P.gen_cut)
+profile('cut-sweep', P.gen_cut_base, sweep='cut', max_points=500,
+        n_interactions=[(2, 1), (3, 2), (2, 3)])
+profile('cancel-sweep', P.gen_core, sweep='cancel', max_points=400, cancels=0.0, errors=False,
+        kinds=[(3, 'rr'), (3, 'stream'), (3, 'channel')], n_interactions=[(2, 1), (2, 2), (2, 3)], max_count=8,
+        stall_bias=0.15, stall_faults=0.0)
+
 # property -> {'profiles': [(name, quick_runs, thorough_runs)], 'oracles': [...]}
 CHECKS = {
     'C01': {'profiles': [('core', 3000, 120000), ('core-msg', 1000, 40000), ('core-frag', 1500, 60000),
@@ -46,6 +53,12 @@ CHECKS = {
             'oracles': [O.oracle_c08], 'level': 'exploration'},
     'C13': {'profiles': [('core-ids', 5000, 200000), ('core', 1000, 40000)],
             'oracles': [O.oracle_c13], 'level': 'exploration'},
+    'C07': {'profiles': [('core-cancel', 2500, 100000), ('core-ends', 2500, 100000), ('core', 1000, 40000)],
+            'oracles': [O.oracle_c07], 'level': 'exploration'},
+    'C09': {'profiles': [('core-cancel', 4000, 150000), ('cancel-sweep', 60, 2500)],
+            'oracles': [O.oracle_c09], 'level': 'exploration'},
+    'C11': {'profiles': [('cut', 4000, 150000), ('cut-sweep', 48, 2000)],
+            'oracles': [O.oracle_c11], 'level': 'fault_enumeration'},
     'C10': {'profiles': [('core-ends', 4000, 160000), ('core', 1500, 60000), ('core-frag', 1000, 40000)],
             'oracles': [O.oracle_c10], 'level': 'exploration'},
 }
@@ -63,6 +76,60 @@ def make_plan(prop, profile_name, base_seed, index, extra=None):
     if extra:
         plan.update(extra)
     return plan
+
+
+def expand(prop, profile_name, base_seed, index, extra, run):
+    """Yield the plans of one job. Ordinary profiles: one plan. Sweep profiles: the base plan is
+    executed fault-free first (run(plan) -> result dict) and one plan per fault point follows."""
+    gen, opts = PROFILES[profile_name]
+    sweep = opts.get('sweep')
+    if not sweep:
+        yield make_plan(prop, profile_name, base_seed, index, extra)
+        return
+    import copy
+    base = make_plan(prop, profile_name, base_seed, index, extra)
+    res = run(copy.deepcopy(base))
+    limit = opts.get('max_points', 600)
+    points = []
+    if sweep == 'cut':
+        for d in ('c2s', 's2c'):
+            total = res['stats'].get('bytes_' + d, 0)
+            for mode in ('eof', 'reset'):
+                for off in range(0, total + 1):
+                    points.append({'kind': 'cut', 'dir': d, 'offset': off, 'mode': mode})
+        lo = res.get('connected_iter') or 1
+        for who in ('client', 'server'):
+            for it in range(lo, res['stats'].get('iters_main', res['iters']) + 1):
+                points.append({'kind': 'close', 'who': who, 'at_iter': it})
+    elif sweep == 'cancel':
+        tgt = base['interactions'][index % len(base['interactions'])]
+        span = res.get('spans', {}).get(tgt['id'])
+        if span:
+            for it in range(span[0], span[1] + 2):
+                points.append({'cancel_iid': tgt['id'], 'at_iter': it})
+    elif sweep == 'reconnect':
+        lo = res.get('connected_iter') or 1
+        for it in range(lo, res['stats'].get('iters_main', res['iters']) + 1):
+            points.append({'kind': 'reconnect', 'at_iter': it})
+    total_points = len(points)
+    if total_points > limit:
+        # deterministic stride; first and last points always kept
+        step = total_points / float(limit)
+        points = [points[int(i * step)] for i in range(limit)]
+    yield ('meta', {'base_index': index, 'points_total': total_points, 'points_run': len(points)})
+    for pt in points:
+        p = copy.deepcopy(base)
+        p['_id'] = dict(base['_id'], point=pt)
+        if 'cancel_iid' in pt:
+            for ia in p['interactions']:
+                if ia['id'] == pt['cancel_iid']:
+                    if ia['kind'] == 'rr':
+                        ia['cancel'] = {'at_iter': pt['at_iter']}
+                    else:
+                        ia.setdefault('sub', {})['cancel_at_iter'] = pt['at_iter']
+        else:
+            p.setdefault('faults', []).append(pt)
+        yield p
 
 
 def jobs_for(prop, tier):
